@@ -76,7 +76,8 @@ class AtomicBase : public AtomicWait<T> {
       this->_value = desired;
       return true;
     } else {
-      expected = this->_value;
+      // the whole representation (long double has padding bytes), so that the next comparison can succeed
+      std::memcpy(&expected, &this->_value, sizeof(T));
       return false;
     }
   }
